@@ -1107,6 +1107,7 @@ func (e *Engine) model(st *state, fr *frame, in ssa.CallInstruction, fn *ssa.Fun
 					}
 				}
 				stg = ns
+				src = ns // the single bytes belong to the record whichever way it is rendered below
 			}
 			hasText := false
 			for _, sg := range stg.Args {
